@@ -206,11 +206,36 @@ def add_string(tag, templ, cap, tier="quick"):
             return "exc:" + type(e).__name__ + ":" + str(e)[:80]
     REG.add(f"string/{tag}", vec_fn(1, body, extra=(("m", bytes),)),
             pre=vec_pre(1, lambda xs, m: 0 <= xs[0] <= cap and len(m) == templ.size - 4, extra=(("m", bytes),)),
-            desc=f"LEN symbolic 0..{cap} (enumerated by realisation), all {templ.size - 4} data bytes symbolic", funcs=F, timeout=300, tier=tier)
+            desc=f"LEN symbolic 0..{cap} (enumerated by realisation), all {templ.size - 4} data/padding bytes symbolic", funcs=F, timeout=300, tier=tier)
 
 
 add_string("ST", STR8, 8)
 add_string("SS", STRING, 82, tier="thorough")
+STR5, STR7 = scen.odd_string_templates()
+add_string("S5", STR5, 5)
+add_string("S7", STR7, 7)
+
+
+def _string_array(l0: int, l1: int, l2: int, m: bytes) -> str:
+    try:
+        lens = [l0, l1, l2]
+        mem = []
+        for k in range(3):
+            mem += [lens[k], 0, 0, 0] + list(m[8 * k:8 * k + 8])
+        target = scen.std_project(mem={"S5A": mem})
+        d = scen.make_driver(target, tags=TAGS)
+        tg = d.read("S5A{3}", "S5A[1]")
+        v = check_tag(tg[0], "S5A", ("list", STR5, 0, 3, "STR5[3]"), mem)
+        if v != "ok":
+            return v
+        v = check_tag(tg[1], "S5A[1]", ("one", STR5, 12, None, "STR5"), mem)
+        return v if v != "ok" or not target.violations else ("ok" if not target.violations else "protocol")
+    except Exception as e:
+        return "exc:" + type(e).__name__ + ":" + str(e)[:80]
+
+
+REG.add("string/S5A{3}-array-of-odd-capacity-strings", _string_array, pre=lambda l0, l1, l2, m: all(0 <= x <= 5 for x in (l0, l1, l2)) and len(m) == 24,
+        desc="STR5[3] (capacity 5, structure padded to 12 bytes): the three LEN values symbolic 0..5, all data bytes symbolic", funcs=F, timeout=400)
 
 
 # ---- data larger than the connection: fragmented reads (target-chosen fragment capacity)
